@@ -3,7 +3,7 @@ from hypothesis import strategies as st
 
 from anytree import LevelOrderGroupIter, LevelOrderIter, PostOrderIter, PreOrderIter, ZigZagGroupIter
 
-from .. import forest, nodes, refs, shapes, strategies
+from .. import big, forest, nodes, refs, shapes, strategies
 from ..core import Violation
 from . import c05
 
@@ -14,6 +14,7 @@ RULE = (
     "cases = (shape, start node, stop set, filtered-out set, maxlevel, how empty predicates are passed, what the predicates return: bools, 1/0, 'x'/'' or [0]/None). The complete product "
     "is enumerated on every shape with <= 5 nodes (quick) / <= 6 nodes (thorough; plus all 7-node shapes with the root as start): every start node x every subset of the start's "
     "subtree as stop set x every subset as filtered-out set x maxlevel in {None, -1, 0, ..., subtree height + 2}; Hypothesis adds "
+    "two parallel chains deeper than the interpreter's recursion limit with maxlevel in {None, 257, 258, 300, ...}, stop nodes and a filter for the three breadth-first iterators, and "
     "trees up to 25 nodes with random subsets, re-checked after mutations, with iterator objects also consumed in two portions. Non-trivial = at least two of {stop, filter_, maxlevel} actually remove an "
     "otherwise admitted node. Enumerated cases are distinct by construction; generated ones are hashed."
 )
@@ -40,7 +41,36 @@ def _tree(case):
     return _CACHE["tree"]
 
 
+def check_very_deep(case, acc):
+    """Restrictions on a tree deeper than the interpreter's recursion limit, for the three breadth-first iterators."""
+    make = nodes.factory(case["cls"])
+    depth = big.deep_size(1)
+    root, left, right, twigs = big.build_double_ladder(make, depth)
+    hide_ids = {id(n) for n in right[1::2]} | {id(t) for t in twigs[::2]}
+    for start in (root, right[7]):
+        for maxlevel in (None, 257, 258, 300, depth // 2, depth + 5):
+            for stop_ids in (set(), {id(left[depth - 40])}, {id(left[300]), id(right[260])}):
+                kw = dict(filter_=lambda n: id(n) not in hide_ids, stop=(lambda n: id(n) in stop_ids) if stop_ids else None, maxlevel=maxlevel)
+                admitted = refs.admitted_ids(start, stop_ids, maxlevel)
+                groups = refs.restricted_groups(start, admitted, hide_ids)
+                ctx = "tree of height %d, maxlevel=%s, %d stop nodes" % (depth, maxlevel, len(stop_ids))
+                got = list(LevelOrderIter(start, **kw))
+                want = refs.restricted(refs.levelorder(start), admitted, hide_ids)
+                if not refs.same_seq(got, want):
+                    raise Violation("levelorder", "%s: LevelOrderIter yields %d nodes, expected %d" % (ctx, len(got), len(want)))
+                got = list(LevelOrderGroupIter(start, **kw))
+                if [c05._ids(g) for g in got] != [c05._ids(tuple(g)) for g in groups]:
+                    raise Violation("levelordergroup", "%s: LevelOrderGroupIter yields %d tuples, expected %d" % (ctx, len(got), len(groups)))
+                got = list(ZigZagGroupIter(start, **kw))
+                if [c05._ids(g) for g in got] != [c05._ids(tuple(g)) for g in refs.zigzag(groups)]:
+                    raise Violation("zigzag", "%s: ZigZagGroupIter yields %d tuples, expected %d (or a wrong direction)" % (ctx, len(got), len(groups)))
+                acc.tag("restricted_iterations_on_trees_deeper_than_the_recursion_limit", 3)
+    acc.nontrivial(True)
+
+
 def check_case(case, acc):
+    if case.get("kind") == "very-deep":
+        return check_very_deep(case, acc)
     if case.get("mutations"):
         tree = forest.build_tree(case["shape"], nodes.factory(case["cls"]))
         labels = forest.Labels(tree)
@@ -269,10 +299,17 @@ def plan(tier, seed):
         # non-root starts of 7-node shapes are the root starts of smaller shapes already enumerated)
         tasks += [{"engine": "enum", "max_nodes": 7, "min_nodes": 7, "root_only": True, "index": i, "count": 132} for i in range(132)]
     tasks += [{"engine": "hyp", "examples": examples, "seed": seed * 1000 + i} for i in range(nshards)]
+    tasks += [{"engine": "very-deep", "cls": c} for c in ("Node", "SlotLM")]
     return tasks
 
 
 def run_task(task, acc):
+    if task["engine"] == "very-deep":
+        case = {"kind": "very-deep", "cls": task["cls"]}
+        exc = acc.evaluate(check_case, case, enumerated=False)
+        if exc is not None:
+            acc.add_violation(case, exc)
+        return
     if task["engine"] == "enum":
         acc.run_enum(check_case, _enum_cases(task["max_nodes"], task["index"], task["count"], task.get("min_nodes", 1), task.get("root_only", False)))
     else:
